@@ -334,6 +334,8 @@ def c02(run):
     from rules import r_cmpbound
     r_cmpbound.run(run, P)
     run.min_instances('R-CMP-BOUND', 40)
+    from rules import r_countcap
+    r_countcap.run(run, P)
     run.min_instances('R-RANGE', 12)
     run.min_instances('R-STREAM-CAP', 4)
     run.min_instances('R-PARSE-GATE', 15)
@@ -348,7 +350,9 @@ def c02(run):
         "option-length table (extracted from coap_pdu_parse_opt_base) as the bound; CBOR-declared sizes are compared with the remaining length; "
         "shift counts from the wire are below the operand width (R-RANGE); peer-declared message/frame lengths are capped and over-long input "
         "closes the session (R-STREAM-CAP); the protocol layer is only entered after successful parsing and every malformed-input condition "
-        "leads to rejection (R-PARSE-GATE); no pointer into a PDU buffer is used after a call that may reallocate it, library-wide (R-FIXUP).")
+        "leads to rejection (R-PARSE-GATE); no pointer into a PDU buffer is used after a call that may reallocate it, library-wide (R-FIXUP); every "
+        "memcmp/strncmp over a length-delimited string is bounded by that string's own length (R-CMP-BOUND); a persistent element count that bounds a "
+        "fixed-size array (block reassembly tracker) only grows behind one common capacity guard (R-COUNT-CAP).")
 
 
 PROPS = {
